@@ -62,3 +62,6 @@ reg("C14", "fault_enumeration", "fault-position and peer-event enumeration with 
 reg("C13", "model_checking", "window-accounting oracle in an independent frame-level peer: exhaustive size/window matrix + explicit-state exploration of WINDOW_UPDATE schedules",
     "Upload sizes around window multiples x INITIAL_WINDOW_SIZE x MAX_FRAME_SIZE x chunking (both variants); downloads beyond the client's 16 MiB credit (one 20 MiB body, 1100 x 16 KiB on one connection); on the virtual loop every order of WINDOW_UPDATE events and completions for one and two uploads: no DATA beyond the peer's windows, body intact, END_STREAM once, no stall while both windows are open.",
     _CONC_NOTE, "DESIGN.md 5 C13")
+reg("C08", "model_checking", "pre-emption-bounded exhaustive schedule exploration (CHESS-style) of real threads on the real synchronous pool under a controlled scheduler",
+    "Real OS threads, one running at a time, pre-emptible at every source line of the sync pool/connection/protocol code (sys.settrace), at every lock/event/semaphore operation (shimmed threading) and network operation; every schedule with at most 1 (line) / 2 (sync-op) pre-emptions in quick, 2 / 3 in thorough, for 2-3 threads; oracles: token echo, limit monitor outside the pool lock, deadlock detector, no collateral failure.",
+    "Trusted: the baton scheduler and threading shim in mc/tworld.py + mc/tshim.py; line-granularity pre-emption (single-line read-modify-write is atomic for the scheduler). Bounded: 2-3 threads, pre-emption bounds as reported.", "DESIGN.md 5 C08")
